@@ -764,6 +764,14 @@ class Engine:
 
         flow_update_dict = dict(flow_updates)
 
+        # What the store removed goes first: within one update the store
+        # moves and divides before it generates, so a path that was
+        # moved (or divided) away may be filled again by the same
+        # update, and what was put there must stay.
+        if deletions:
+            for deletion in deletions:
+                self._delete_path(deletion)
+
         if topology_updates:
             for path, topology_update in topology_updates:
                 assoc_path(self.topology, path, topology_update)
@@ -782,10 +790,6 @@ class Engine:
                 dependencies = flow_update_dict.get(path)
                 assoc_path(self.steps, path, step)
                 self._add_step_path(step, path, dependencies)
-
-        if deletions:
-            for deletion in deletions:
-                self._delete_path(deletion)
 
         return view_expire
 
